@@ -10,7 +10,7 @@ open Lp Lp.C11
     c11.nmd  <ftol> <start> <deltas> <prog>    minimize(start, deltas, func)
     c11.nm1  <ftol> <start> <delta> <prog>     minimize(start, delta, func)
 
-    Answers: 1-D  `ok xmin fmin ntrace (x bits)…`;  n-D `ok ndim pmin… fmin nfunc mpts y… rows… ntrace (pt… bits)…`
+    Answers: 1-D  `ok xmin fmin stopbits ntrace (x bits)…`;  n-D `ok stopbits ndim pmin… fmin nfunc mpts y… rows… ntrace (pt… bits)…`
     where `bits = ⌊-log₂ margin⌋` (999 for margin 0). -/
 
 def pTok : P Tok := do
@@ -50,7 +50,7 @@ def show1 (o : Out1) (tr : List Ev) (fdef : Rat → Option Rat) : String :=
   if tr.any (fun e => match fdef e.1 with | none => true | some v => tooBig v || tooBig e.1) then "undef" else
   let t := toString tr.length ++ " " ++ " ".intercalate (tr.map (fun e => showQ e.1 ++ " " ++ toString (bitsOf e.2)))
   match o with
-  | .ok x fx => "ok " ++ showQ x ++ " " ++ showQ fx ++ " " ++ t
+  | .ok x fx m => "ok " ++ showQ x ++ " " ++ showQ fx ++ " " ++ toString (bitsOf m) ++ " " ++ t
   | .tooMany => "err " ++ t
   | .noBracket => "undef"
 
@@ -61,8 +61,8 @@ def showN (r : Option (OutN × List EvN)) (fdef : Pt → Option Rat) : String :=
     if tr.any (fun e => match fdef e.1 with | none => true | some v => tooBig v || e.1.any tooBig) then "undef" else
     let t := toString tr.length ++ " " ++ " ".intercalate (tr.map (fun e => showQs e.1 ++ " " ++ toString (bitsOf e.2)))
     match o with
-    | .ok pmin fmin s =>
-      "ok " ++ toString pmin.length ++ " " ++ showQs pmin ++ " " ++ showQ fmin ++ " " ++ toString s.nfunc ++ " " ++
+    | .ok pmin fmin s m =>
+      "ok " ++ toString (bitsOf m) ++ " " ++ toString pmin.length ++ " " ++ showQs pmin ++ " " ++ showQ fmin ++ " " ++ toString s.nfunc ++ " " ++
         toString s.y.length ++ " " ++ showQs s.y ++ " " ++ " ".intercalate (s.p.map showQs) ++ " " ++ t
     | .nmax => "err " ++ t
     | .fuel => "undef"
